@@ -79,6 +79,9 @@ var tvPairs = []tvPair{
 	{name: "WalkDir", avfs: tvSide{"vfs.go", "WalkDir"}, ref: both("path/filepath/path.go", "WalkDir"), props: []string{"C14"}},
 	{name: "walkDir", avfs: tvSide{"vfs.go", "walkDir"}, ref: both("path/filepath/path.go", "walkDir"), props: []string{"C14"}},
 	{name: "ReadDir", avfs: tvSide{"vfs.go", "ReadDir"}, ref: both("os/dir.go", "ReadDir"), props: []string{"C14"}},
+	// composites the wrappers are built on (C12: they fail when a primitive they are built on fails)
+	{name: "WriteFile", avfs: tvSide{"vfs.go", "WriteFile"}, ref: map[string]tvSide{"linux": {"os/file.go", "WriteFile"}}, props: []string{"C12"},
+		note: "os.WriteFile reports the error of Close when the write succeeded; the generic WriteFile is the same program over the file system's OpenFile"},
 }
 
 // The emulated OS types are Linux, Darwin (both use the reference's unix files) and Windows.
@@ -171,7 +174,7 @@ func isCallOf(e ast.Expr, x, sel string) bool {
 var avfsHelpers = map[string]bool{"Base": true, "Clean": true, "postClean": true, "Dir": true, "FromSlash": true, "getEsc": true, "IsAbs": true,
 	"IsPathSeparator": true, "Join": true, "joinWindows": true, "Match": true, "matchChunk": true, "Rel": true, "sameWord": true, "scanChunk": true,
 	"Split": true, "ToSlash": true, "VolumeNameLen": true, "VolumeName": true, "glob": true, "hasMeta": true, "cleanGlobPath": true,
-	"cleanGlobPathWindows": true, "walkDir": true, "ReadDir": true, "Glob": true, "globWithLimit": true}
+	"cleanGlobPathWindows": true, "walkDir": true, "ReadDir": true, "Glob": true, "globWithLimit": true, "WriteFile": true}
 
 // callee name equivalences (both sides are mapped to the canonical name on the right)
 var tvCalleeMap = map[string]string{
@@ -306,6 +309,13 @@ func (c *tvCtx) rewriteExpr(cur *astutil.Cursor) bool {
 			n.Fun = &ast.SelectorExpr{X: ast.NewIdent("strings"), Sel: ast.NewIdent("IndexByte")}
 			c.used("stringslite.IndexByte = strings.IndexByte")
 		}
+		// inside package os the reference calls its own functions unqualified
+		if id, ok := n.Fun.(*ast.Ident); ok && c.side == "ref" {
+			switch id.Name {
+			case "OpenFile", "Open", "Stat", "Lstat":
+				n.Fun = &ast.SelectorExpr{X: ast.NewIdent("os"), Sel: ast.NewIdent(id.Name)}
+			}
+		}
 		// os.X(a...) <=> vfs.X(a...)   (C14 call equivalence)
 		if s, ok := n.Fun.(*ast.SelectorExpr); ok && (isIdent(s.X, "os") || isIdent(s.X, "vfs")) {
 			switch s.Sel.Name {
@@ -349,6 +359,16 @@ func (c *tvCtx) rewriteExpr(cur *astutil.Cursor) bool {
 			c.used("qualified name mapped to its avfs counterpart")
 		}
 	case *ast.Ident:
+		// the open flags, unqualified inside package os
+		if c.side == "ref" {
+			switch n.Name {
+			case "O_RDONLY", "O_WRONLY", "O_RDWR", "O_APPEND", "O_CREATE", "O_EXCL", "O_SYNC", "O_TRUNC":
+				if _, isSel := cur.Parent().(*ast.SelectorExpr); !isSel {
+					cur.Replace(&ast.SelectorExpr{X: ast.NewIdent("os"), Sel: ast.NewIdent(n.Name)})
+					return true
+				}
+			}
+		}
 		if c.side == "ref" && n.Name == "Separator" {
 			cur.Replace(c.sepChar())
 			c.used("Separator constant folded")
